@@ -10,6 +10,8 @@ CONSTANTS
   MaxT = 3
   MaxS = 2
   MaxClr = 2
+  MaxPlain = 1
+  Vias = {"set","import","views"}
   Depth = 6
   Gen = TRUE
 INIT Init
